@@ -326,7 +326,7 @@ class GriffeLoader:
 
         # First we expand wildcard imports and store the objects in a temporary `expanded` variable,
         # while also keeping track of the members representing wildcard import, to remove them later.
-        for member in obj.members.values():
+        for member in list(obj.members.values()):
             # Handle a wildcard.
             if member.is_alias and member.wildcard:  # type: ignore[union-attr]
                 package = member.wildcard.split(".", 1)[0]  # type: ignore[union-attr]
@@ -361,6 +361,11 @@ class GriffeLoader:
                     except (AliasResolutionError, CyclicAliasError) as error:
                         logger.debug("Could not expand wildcard import %s in %s: %s", member.name, obj.path, error)
                         continue
+
+                # Loading the package or recursing into the module can expand this very wildcard
+                # (cyclic wildcard imports across packages): nothing left to do then.
+                if member.name not in obj.members:
+                    continue
 
                 # Collect every imported object.
                 try:
